@@ -11,7 +11,11 @@ use std::collections::BTreeMap;
 use std::time::Duration as StdDuration;
 
 /// durations in microseconds
-pub const DURS: [u64; 12] = [0, 1_000, 2_000, 4_000, 5_000, 6_000, 10_000, 20_000, 50_000, 1_000_000, 7_000_000, 3_600_000_000];
+pub const DURS: [u64; 16] = [
+    0, 1_000, 2_000, 4_000, 5_000, 6_000, 10_000, 20_000, 50_000, 1_000_000, 7_000_000, 3_600_000_000,
+    // deadlines that share a millisecond but differ below it
+    200, 700, 1_200, 1_700,
+];
 
 #[derive(Clone, Debug, Serialize, Deserialize, PartialEq)]
 pub enum Inner {
@@ -610,7 +614,7 @@ impl Prop for C05 {
     fn rule() -> String {
         "proptest: 1..3 modules x 1..4 tasks, each a script over Sleep | SleepUntil | Timeout{Ready,Pending,Sleep} | Interval{period, Burst/Delay/Skip, \
          ticks, work} | select!{biased; sleep, sleep, [ready]} | ResetThenAwait | PollOnceThenDrop | TwinDrop (two sleeps of one deadline in one task, the first cancelled or reset, the twin awaited) | Spawn(child script) | sleep(Duration::MAX) | one shutdown-and-restart request per module, with \
-         durations from a small lattice (0, 1..6 ms, 10/20/50 ms, 1 s, 7 s, 1 h) so that equal deadlines, dropped timers preceding live ones and \
+         durations from a small lattice (0, 0.2/0.7/1.2/1.7 ms, 1..6 ms, 10/20/50 ms, 1 s, 7 s, 1 h) so that equal deadlines, dropped timers preceding live ones and \
          already-elapsed deadlines are frequent, plus unrelated self-messages. Oracle: an exact sequential model per task (tasks do not \
          communicate; after a shutdown request nothing later than that instant happens and every script starts over at the restart time): completion instants and outcomes (Ok/Elapsed, select branch, scheduled tick instants with the documented 5 ms missed-tick \
          rule) must match log entry by log entry; run() is Ok unless a task ends in a far-future wait (then exactly NotFinished for that module). \
@@ -633,7 +637,7 @@ impl Prop for C05 {
     }
     fn strategy(tier: Tier) -> BoxedStrategy<Case> {
         let n = DURS.len() as u8;
-        let dur = prop_oneof![4 => 0u8..9, 1 => 9u8..n];
+        let dur = prop_oneof![8 => 0u8..9, 2 => 9u8..12, 3 => 12u8..n];
         let beh = prop_oneof![Just(Beh::Burst), Just(Beh::Delay), Just(Beh::Skip)];
         let inner = prop_oneof![Just(Inner::Ready), Just(Inner::Pending), dur.clone().prop_map(Inner::Sleep)];
         let leaf = prop_oneof![
